@@ -219,18 +219,21 @@ def shrink(check, case, clause, budget=300):
             cands.append(check.shrink_candidates(current))
         cands.append(_generic_candidates(current))
         for gen in cands:
-            for cand in gen:
-                if used >= budget:
-                    break
-                used += 1
-                try:
-                    verdict = safe_execute(check, cand)
-                except Exception:  # noqa: BLE001 - malformed candidate
-                    continue
-                if any(v['clause'] == clause for v in verdict['violations']):
-                    current = cand
-                    improved = True
-                    break
+            try:
+                for cand in gen:
+                    if used >= budget:
+                        break
+                    used += 1
+                    try:
+                        verdict = safe_execute(check, cand)
+                    except Exception:  # noqa: BLE001 - malformed candidate
+                        continue
+                    if any(v['clause'] == clause for v in verdict['violations']):
+                        current = cand
+                        improved = True
+                        break
+            except Exception:  # noqa: BLE001 - a shrinker that cannot handle this case shape just stops shrinking
+                pass
             if improved:
                 break
     return current, used
